@@ -22,3 +22,11 @@ Theorem C03_sql_registry :
   gen_sql_registry = [s2l "Column"; s2l "Enum"; s2l "EnumItem"; s2l "Expression"; s2l "Index"; s2l "Note"; s2l "Reference"; s2l "Table"].
 Proof. exact (proj1 registries_expected). Qed.
 Print Assumptions C03_sql_registry.
+
+(* the SQL of an enum item is the check of the required attributes followed by the registered renderer function, which is
+   regenerated from its source text on every run (coq/gen/GenFns.v, tools/translate_fns.py) *)
+From PyDBML Require Import Heap Classes GenFns GenFnTie.
+Theorem C03_enum_item_renderer_regenerated_from_source :
+  forall i, sql_enum_item i = do _ <- check_attributes (OEnumItem i); Ok (gen_render_enum_item_sql i).
+Proof. exact gen_render_enum_item_sql_is_model. Qed.
+Print Assumptions C03_enum_item_renderer_regenerated_from_source.
